@@ -2,6 +2,9 @@
 C11 — Positions are a normalised set: sorted, disjoint, exact union.
 -/
 import Sqroot.Proofs.Positions
+import Sqroot.Gen.V1
+import Sqroot.Gen.V2
+import Sqroot.Gen.V3
 namespace Sqroot.Props.C11
 open Sqroot.Model Sqroot.Proofs
 
@@ -48,6 +51,15 @@ theorem upTo_is_single_range (e : Int) :
 theorem build_leaves_builder_empty (b : Builder) (sorted r : List PRange) (b' : Builder)
     (h : b.buildWith sorted = .ok (r, b')) : b' = {} :=
   build_resets b sorted r b' h
+
+/-- tie 1: in the source of every version `Build` drops the builder's slice header before every
+return (`*p = PositionsBuilder{}`, no `p.ranges = p.ranges[:0]`-style truncation that would keep
+the backing array) and builds the sorted-path result from a nil slice — the two facts the
+slice/heap model `Model/PosHeap.lean` is written from (isolation theorem: `Proofs/PosHeap.lean`) -/
+theorem build_reset_as_modelled :
+    Gen.V1.buildFullReset = true ∧ Gen.V2.buildFullReset = true ∧ Gen.V3.buildFullReset = true ∧
+    Gen.V1.buildResultFresh = true ∧ Gen.V2.buildResultFresh = true ∧ Gen.V3.buildResultFresh = true :=
+  ⟨rfl, rfl, rfl, rfl, rfl, rfl⟩
 
 /-- non-vacuity: an out-of-order, overlapping, adjacent, negative and wrapping script -/
 example : (do let b ← ({} : Builder).calls [.addRange 5 9, .add 3, .addRange (-4) 2, .add 2, .add maxInt, .addRange 9 9, .addRange 8 12]; b.build).toOption
